@@ -20,7 +20,7 @@ from vf.oracle.exact import F, to_float
 
 ID = 'C06'
 NSHARDS = dict(quick=8, thorough=16)
-BUDGET = dict(quick=0, thorough=20000)           # random ratios on top of the complete grid
+BUDGET = dict(quick=800, thorough=20000)           # random ratios on top of the complete grid
 ANCHORS = ['numdifftools.finite_difference:LogRule._fd_matrix', 'numdifftools.finite_difference:LogRule.rule',
            'numdifftools.finite_difference:LogRule._parity', 'numdifftools.finite_difference:LogRule._parity_complex',
            'numdifftools.finite_difference:LogRule._flip_fd_rule', 'numdifftools.finite_difference:LogRule.richardson_step',
